@@ -111,6 +111,7 @@ def run(check, prog):
     r8_uniform_guess(check, prog, canon)
     r9_updated_support(check, prog)
     r10_ufunc_protocol(check, prog)
+    r10b_operand_order(check, prog)
     r11_shared_base_samples(check, prog)
     r12_complex_prior(check, prog)
     r13_unsupported_operands(check, prog)
@@ -611,16 +612,42 @@ def r5_scale(check, prog, canon):
         it, fr, selft, res = final_self(prog, P + cname, max_depth=3)
         t = it.getattr_term(selft, 'scale_factor', fr, ())
         leaves = []
+        lconds = {}
 
-        def collect(t):
+        def collect(t, cond=()):
             if t[0] == 'ite':
-                collect(t[2])
-                collect(t[3])
+                collect(t[2], cond + ((t[1], True),))
+                collect(t[3], cond + ((t[1], False),))
             else:
                 leaves.append(t)
+                lconds.setdefault(t, []).append(cond)
         collect(t)
         owner2, ifd = init_of(prog, P + cname)
+        width = expr_term(prog, '(u - l)', {'u': sym('upper_bound'),
+                                            'l': sym('lower_bound')})
         for lf in leaves:
+            if canon.equal(lf, expr_term(prog, '(u - l)/10.', {
+                    'u': sym('upper_bound'), 'l': sym('lower_bound')})):
+                # a tenth of the interval is a usable scale only where the interval
+                # is finite: every path to this leaf has tested exactly that
+                def finite_width(cond):
+                    for ct, pol in cond:
+                        if pol and ct[0] == 'call' and ct[1] == 'numpy.isfinite' and \
+                                len(ct[2]) == 1 and canon.equal(ct[2][0], width):
+                            return True
+                    fin = [ct[2][0] for ct, pol in cond if pol and ct[0] == 'call'
+                           and ct[1] == 'numpy.isfinite' and len(ct[2]) == 1]
+                    return sym('upper_bound') in fin and sym('lower_bound') in fin
+                okf = all(finite_width(c_) for c_ in lconds[lf])
+                check.require(okf, 'R5-scale-factor-nonzero',
+                              '%s.scale_factor interval/10 guard' % cname,
+                              'interval / 10 is used only where the interval is finite',
+                              prog.loc(P + cname, ifd),
+                              fail_detail='reached under %s: for a half-infinite prior '
+                              'the scale factor is inf, scale(x) = 0 for every x and '
+                              'unscale(scale(x)) is nan' % [
+                                  [(show(ct)[:40], pol) for ct, pol in c_]
+                                  for c_ in lconds[lf]][:1])
             good = (lf[0] == 'call' and lf[1] == 'numpy.abs') or lf == num(1) or \
                 canon.equal(lf, sym('sd')) or any(
                     canon.equal(lf, expr_term(prog, '(u - l)/10.', {
@@ -1027,6 +1054,59 @@ def r10_ufunc_protocol(check, prog):
                   'under [%s]: np.float64(0) * prior is a prior (it should raise), '
                   'np.float64(1) * prior and np.float64(0) + prior are new objects (they '
                   'should be the prior itself)' % '; '.join(bad)[:160])
+
+
+def r10b_operand_order(check, prog):
+    """R10b: subtraction, division and powers do not commute: when __array_ufunc__
+    hands an arithmetic ufunc to the Python operator, the operator must receive
+    the operands in the order NumPy delivered them (np.float64(3) - prior is
+    3 - prior, not prior - 3).  On every returning path that calls something
+    looked up by the ufunc, the arguments are `*args` itself or one unfiltered
+    element-wise conversion of it."""
+    q = P + 'Prior.__array_ufunc__'
+    if not prog.has_func(q):
+        return
+    fd = prog.func(q)
+    loc = prog.loc(q, fd)
+    it = Interp(prog, max_depth=0, inline_new=False)
+    res = it.analyze(q)
+    uf = sym(fd.args.args[1].arg)
+    va = sym('*' + fd.args.vararg.arg) if fd.args.vararg else None
+    n = 0
+    for o in res.returns:
+        v = o.value
+        if not (v[0] == 'call' and isinstance(v[1], tuple) and v[1][0] == 'idx' and
+                v[1][2] == uf):
+            continue
+        n += 1
+        args = v[2]
+        ok = len(args) == 1 and args[0][0] == 'star'
+        detail = 'arguments %s' % show(('tuple', args))[:160]
+        if ok:
+            a = args[0][1]
+            if a == va:
+                ok = True
+            else:
+                # one comprehension over *args, no filter, each element mapped to
+                # itself or a conversion of itself
+                ok = a[0] == 'comp' and len(a[3]) == 1 and a[3][0][1] == va and \
+                    not a[3][0][2]
+                if ok:
+                    el = a[3][0][0]
+
+                    def leaves(t):
+                        return leaves(t[2]) + leaves(t[3]) if t[0] == 'ite' else [t]
+                    ok = all(l == el or (l[0] == 'call' and isinstance(l[1], tuple) and
+                                         l[1][0] == 'attr' and l[1][1] == el and
+                                         l[1][2] in ('item', 'tolist') and not l[2]) or
+                             (l[0] == 'call' and l[1] in ('float', 'complex', 'int') and
+                              l[2] == (el,))
+                             for l in leaves(a[2]))
+        check.require(ok, 'R10-ufunc-protocol', 'Prior.__array_ufunc__ operand order',
+                      'the operator gets the operands in the order of the ufunc call',
+                      loc, fail_detail=detail + ': np.float64(3) - prior would be '
+                      'evaluated as prior - 3')
+    check.floor('operator-routing returns of __array_ufunc__', n, 1)
 
 
 def r11_shared_base_samples(check, prog):
